@@ -48,12 +48,12 @@ func regressionScenarios(prop string) []regression {
 			When: mkBin("&&", mkBin("<", eVar(vPath("F", "I64")), cInt(3)), neg(mkBin("==", eVar(vPath("F", "S")), cStr("stop")))),
 			Then: []*Stmt{assign(vPath("F", "I64"), "+=", cInt(1))}},
 		&Rule{Name: "Mark", Desc: "", Sal: 5,
-			When: mkBin(">=", eVar(vPath("F", "I64")), eVar(vPath("F", "I32"))),
+			When: mkBin(">=", eVar(vPath("F", "I64")), eVar(vPath("F", "In", "X"))),
 			Then: []*Stmt{assign(vPath("F", "S"), "=", mkBin("+", eVar(vPath("F", "S")), cStr("!"))), call(fn("Retract", cStr("Mark")))}},
 		&Rule{Name: "Done", Desc: "", Sal: -1,
-			When: eAtom(&Atom{Kind: "neg", A: aVar(vPath("F", "B"))}),
+			When: mkBin("||", eAtom(&Atom{Kind: "neg", A: aVar(vPath("F", "B"))}), mkBin(">", eVar(vName("N")), cInt(5))),
 			Then: []*Stmt{call(fn("Complete"))}})
-	fl.Fact.I32, fl.Fact.B, fl.Fact.S = 2, true, "go"
+	fl.Fact.In.X, fl.Fact.B, fl.Fact.S = 2, true, "go"
 	out = append(out, regression{"flat-example", fl})
 	return out
 }
